@@ -102,6 +102,6 @@ func init() {
 			"sequentially consistent interleavings at the shims' scheduling points; deviation bounding",
 			"abandoned writes are observed through later reads (also after flush, compaction and reopen), not by inspecting files",
 		},
-		QuickS: 60, ThoroughS: 1200,
+		QuickS: 100, ThoroughS: 1200,
 	}
 }
